@@ -10,7 +10,7 @@ prepends the stored envelope (taken from the socket) onto the reply exactly once
 (R07.5) ZmqMessage::prepend keeps frame order (reverse iteration + push_front), split_off delegates to
 VecDeque::split_off. Does NOT decide payload byte equality end to end."""
 from ..sym import show, walk_expr
-from ..common import short, trait_impls, coroutine_of, strip_casts, emptiness, is_empty_bytes, store_hits
+from ..common import short, trait_impls, coroutine_of, strip_casts, emptiness, is_empty_bytes, store_hits, names_type
 from .. import pathq
 from ..oblig import implied_ge
 
@@ -31,7 +31,7 @@ MUTATORS = {"push_front", "push_back", "pop_front", "pop_back", "prepend", "spli
 
 def socket_coroutine(f, trait, method, ty_suffix):
     for ty, outer in trait_impls(f, trait, method).items():
-        if ty.endswith(ty_suffix):
+        if names_type(ty, ty_suffix):         # by the socket type's public name, whatever module it lives in
             return coroutine_of(f, outer)
     return None
 
@@ -78,7 +78,7 @@ def check_req_send(f, rep):
         return
     nw = 0
     nr = 0
-    for p in pathq.paths(f, co):
+    for p in pathq.paths(f, co, inline_async=True):
         ww = wire_writes(p)
         for i, ev in ww:
             nw += 1
@@ -105,7 +105,7 @@ def check_req_recv(f, rep):
         rep.bad("R07.2", "R07.2|anchor", "ReqSocket::recv not found (anchor-missing)")
         return
     n = 0
-    for p in pathq.paths(f, co):
+    for p in pathq.paths(f, co, inline_async=True):
         if p.end != "return" or pathq.ret_kind(p) != "Ok":
             continue
         n += 1
@@ -278,7 +278,7 @@ def check_rep_send(f, rep):
         rep.bad("R07.4", "R07.4|anchor", "RepSocket::send not found (anchor-missing)")
         return
     n = 0
-    for p in pathq.paths(f, co):
+    for p in pathq.paths(f, co, inline_async=True):
         for i, ev in wire_writes(p):
             n += 1
             item = ev.args[1]
